@@ -17,14 +17,15 @@
 (* (last) call; depth is the second result of seekTS.                      *)
 (*                                                                         *)
 (* SeekStart and ReadNext are one step of the spec each.  seekTS is        *)
-(* SeekTSBegin followed by as many Probe steps as the spec needs; the      *)
+(* SeekTSBegin (which returns at once on a file of 0 bytes) followed by as *)
+(* many Probe steps as the spec needs; the                                 *)
 (* record is compared when the spec's loop returns.  The spec is           *)
 (* deterministic, so TLC walks a single path; a record it does not         *)
 (* reproduce is added to `bad` and the rest of the case is skipped.        *)
 (***************************************************************************)
 EXTENDS Integers, Sequences, FiniteSets, TLC, Json
 
-CONSTANTS MaxEntry, BufSize, DepthLimit, EmptyFileSeek
+CONSTANTS MaxEntry, BufSize, DepthLimit, EmptyGuard
 
 Trace == ndJsonDeserialize("trace.ndjson")
 
@@ -81,8 +82,10 @@ TStart == /\ InRange /\ ~skip /\ R.k = "start" /\ pc = "idle"
 \* j = 0: the call has not begun; j = 1: the spec is inside the loop.
 TSeekBegin == /\ InRange /\ ~skip /\ R.k = "seek" /\ pc = "idle" /\ j = 0
               /\ A!SeekTSBegin(R.t)
-              /\ j' = 1
-              /\ UNCHANGED <<fl, l, bad, skip>>
+              /\ IF pc' = "probe" THEN j' = 1 /\ UNCHANGED <<l, bad, skip>>
+                 \* the empty-file guard: seekTS returned before the loop
+                 ELSE Verdict(ResMatch(out'.res, R.res) /\ StateMatch /\ sDepth' = R.depth)
+              /\ UNCHANGED fl
 
 TProbe == /\ InRange /\ ~skip /\ R.k = "seek" /\ pc = "probe" /\ j = 1
           /\ A!Probe
